@@ -41,6 +41,11 @@ def main():
             print(name, 'PATCH DOES NOT APPLY')
             results[name] = {'error': 'patch does not apply'}
             continue
+        import shutil
+        evd = os.path.join(ROOT, 'evidence')
+        bak = os.path.join(ROOT, '.evidence_backup')
+        shutil.rmtree(bak, ignore_errors=True)
+        shutil.copytree(evd, bak)
         try:
             targets = [pid] if os.environ.get('SEED_ONLY_OWN') else \
                 ([pid] + [c for c in checks if c != pid
@@ -65,6 +70,9 @@ def main():
             results[name] = out
         finally:
             subprocess.run('git -C /repo checkout -- .', shell=True)
+            # evidence files must come from runs on the unchanged tree
+            shutil.rmtree(evd, ignore_errors=True)
+            shutil.move(bak, evd)
         json.dump(results, open(respath, 'w'), indent=1)
 
 
